@@ -19,7 +19,14 @@ mkdir -p /verif/target
 exec 8>/verif/target/.repo.lock; flock -x 8; export VERIF_LOCK_HELD=1
 cd /repo || exit 2
 [ -z "$(git status --porcelain -- src)" ] || { echo "repo dirty"; exit 2; }
-git apply --3way "$P" 2>/dev/null || git apply "$P" || { echo "patch does not apply to /repo"; exit 2; }
+if ! git apply "$P" 2>/dev/null; then
+  # context shifted by later commits in /repo (e.g. the verif hook next to the imports): fuzzy apply
+  git reset -q --hard HEAD
+  if ! patch -p1 -F 3 -s --no-backup-if-mismatch < "$P"; then git reset -q --hard HEAD; git clean -fdq src; echo "patch does not apply to /repo"; exit 2; fi
+  echo "(patch applied with fuzz; stored patch regenerated against /repo HEAD)"
+  REGEN=1
+fi
+git diff > /dev/shm/.applied_patch.diff
 results=""
 for c in $CHECKS; do
   out=$(cd /verif && ./check "$c" quick 2>&1); rc=$?
@@ -28,9 +35,9 @@ for c in $CHECKS; do
   echo "benign $ID vs check $c: exit=$rc VIOLATION lines=$nv :: $first"
   results="$results{\"check\":\"$c\",\"tier\":\"quick\",\"exit\":$rc,\"violation_lines\":$nv},"
 done
-git -C /repo reset -q --hard HEAD
+git -C /repo reset -q --hard HEAD; git -C /repo clean -fdq src
 S="/verif/seeded/benign/${ID}_$TAG"; mkdir -p "$S"
-cp "$P" "$S/patch.diff"
+if [ -n "${REGEN:-}" ]; then cp /dev/shm/.applied_patch.diff "$S/patch.diff"; else cp "$P" "$S/patch.diff"; fi
 python3 - "$M" "$S/meta.json" "$ID" "[${results%,}]" "$suite" <<'PY'
 import json,sys
 src,dst,pid,res,s=sys.argv[1:6]
